@@ -10,7 +10,7 @@ XML_GRAMMAR = lambda f: f["crate"] in ("xml_parser", "xml_nom") and f["kind"] ==
     and "helper" not in f["path"] and "xmlchar" not in f["path"] and "nom::Err<" in f.get("sig", "")
 
 ORDERED_CHOICE_REASONS = {
-    "xml_parser::att_def|alt#1|1<2": "alternative 1 (qname) is a greedy run of name characters: on `xmlns` or `xmlns:p` it consumes the "
+    "xml_parser::att_def|alt|qname<ns_att_name": "alternative 1 (qname) is a greedy run of name characters: on `xmlns` or `xmlns:p` it consumes the "
                                      "whole name itself, so the later alternative ns_att_name is merely unreachable; both spellings "
                                      "yield the same (local, prefix) pair in XmlDeclarationAttDef::new",
 }
